@@ -11,7 +11,10 @@ sequence of storage calls the code issues, one spec step per call, fates ok | er
      the spec's programs; crash images are reopened with the real constructors),
   4. the same-handle retry of spacestorage.Create (a listed known finding; end of TestReplay),
   5. PersistTrace.tla validates logs recorded from random, larger runs of the real code (3 trees, 9 changes,
-     3 ACL records, up to 3 faults per run); in the thorough tier corrupted logs must be rejected.
+     3 ACL records, up to 3 faults per run) and of one AddRawChanges with a chain of 65 changes; in the thorough
+     tier corrupted logs must be rejected,
+  6. batch size: one AddRawChanges with 1, 2, 65, 130 (thorough: 300) changes on an eager and on a deferred tree
+     storage, fault at every (large: every non-insert and sampled insert) boundary (end of TestReplay).
 The TLC jobs are independent and run side by side."""
 import glob
 import json
@@ -26,7 +29,7 @@ from concurrent.futures import ThreadPoolExecutor
 LEVEL = "model_checking"
 
 DEVIATIONS = ["FIX_NamedResult", "FIX_AclWriteFirst", "FIX_DeferredReset", "FIX_LocalRollback", "FIX_DeleteAfter",
-              "FIX_NotifyAfterCommit", "FIX_ValidateFirst", "DEV_HeadsOutsideTx", "DEV_SpaceTwoTx"]
+              "FIX_NotifyAfterCommit", "FIX_ValidateFirst", "DEV_HeadsOutsideTx", "DEV_SpaceTwoTx", "DEV_SplitBatch", "DEV_AclBatchOneTx"]
 
 _lock = threading.Lock()
 
@@ -100,10 +103,10 @@ def expect_ok(res, name, coverage=False):
     return res
 
 
-def validate_trace(ctx, trace, runs, selftest):
+def validate_trace(ctx, trace, runs, selftest, cfg="PersistTrace.cfg", name="trace-validation"):
     """code -> spec: PersistTrace.tla checks that the recorded log is a behaviour of Persist and evaluates
     every invariant on every observed state."""
-    tv = ptlc(ctx, "trace-validation", "PersistTrace", "PersistTrace.cfg", env={"VERIF_TRACE": trace}, timeout=2400)
+    tv = ptlc(ctx, name, "PersistTrace", cfg, env={"VERIF_TRACE": trace}, timeout=2400)
     lines = open(trace).read().splitlines()
     if tv.timed_out or (tv.error and tv.error not in ("invariant", "other")):
         raise broken("trace validation did not run: %s\n%s" % (tv.error, tv.out[-3000:]))
@@ -165,9 +168,20 @@ def binding_selftest(ctx, lines):
 
 def record(ctx, runs):
     trace = os.path.join(ctx.scratch, "persist-trace.ndjson")
-    rep = ctx.go_test("./persist", run="TestRecord$", env={"VERIF_TRACE_OUT": trace, "VERIF_RUNS": runs}, timeout=1500)
-    ctx.cov["trace_events_validated"] = rep["extra"].get("trace_events", 0)
+    rep = ctx.go_test("./persist", run="TestRecord$", timeout=1500,
+                      env={"VERIF_TRACE_OUT": trace, "VERIF_RUNS": runs, "VERIF_TRACE_OUT_LARGE": trace + ".large"})
+    ctx.cov["trace_events_validated"] = rep["extra"].get("trace_events", 0) + rep["extra"].get("trace_events_large", 0)
     return trace
+
+
+def record_and_validate(ctx, runs, selftest):
+    trace = record(ctx, runs)
+    # the long batch (65 changes in one AddRawChanges: one begin ... one commit) with a larger id space, side by side
+    with ThreadPoolExecutor(max_workers=2) as ex:
+        a = ex.submit(validate_trace, ctx, trace, runs, selftest)
+        b = ex.submit(validate_trace, ctx, trace + ".large", runs, False, "PersistTraceL.cfg", "trace-validation-large-batch")
+        a.result()
+        b.result()
 
 
 def run(ctx):
@@ -177,7 +191,7 @@ def run(ctx):
         rp = (json.load(open(ctx.replay)).get("replay") or {})
         if "recorded_run" in rp:
             ctx.seed = int(rp.get("seed", ctx.seed))
-            validate_trace(ctx, record(ctx, int(rp.get("runs", runs))), runs, False)
+            record_and_validate(ctx, int(rp.get("runs", runs)), False)
         else:
             ctx.go_test("./persist", run="TestReplay$", timeout=600)
         return
@@ -195,6 +209,9 @@ def run(ctx):
     # 1. the design: repaired model, exhaustive
     jobs.append(("mc", lambda: expect_ok(ptlc(ctx, "persist/Persist:Persist_mc.cfg", "Persist", "Persist_mc.cfg", workers=4,
                                               coverage=thorough, count=True), "Persist_mc", thorough)))
+    # the ACL log alone with batches of 1-3 records (AddRawRecords), two faults
+    jobs.append(("mc_acl", lambda: expect_ok(ptlc(ctx, "persist/Persist:Persist_mc_acl.cfg", "Persist", "Persist_mc_acl.cfg",
+                                                  workers=2, count=True), "Persist_mc_acl")))
     if thorough:
         # two faults in one behaviour (error during the retry, crash after an error, ...); a larger universe
         jobs.append(("mc_f2", lambda: expect_ok(ptlc(ctx, "persist/Persist:Persist_mc_f2.cfg", "Persist", "Persist_mc_f2.cfg",
@@ -216,9 +233,10 @@ def run(ctx):
         jobs.append(("dev-" + d, lambda d=d: dev(d)))
     # 3a. behaviour generation: two small universes in the quick tier (2 trees x 1 change x 1 ACL record: creation,
     #     deferred creation, ACL, delete; 1 tree x 2 changes: batches, snapshots, reduction, rebuild), one larger
-    #     universe (2 trees x 2 changes) and the 1-tree universe with two faults per behaviour in the thorough tier
-    gens = ([("PersistGen_t.cfg", "t"), ("PersistGen_f2.cfg", "f2")] if thorough
-            else [("PersistGen_q.cfg", "q"), ("PersistGen_q2.cfg", "q2")])
+    #     universe (2 trees x 2 changes) and the 1-tree universe with two faults per behaviour in the thorough tier;
+    #     q3 = the ACL log alone, 3 records: AddRawRecord and AddRawRecords batches of 1-3 records
+    gens = ([("PersistGen_t.cfg", "t"), ("PersistGen_f2.cfg", "f2"), ("PersistGen_q3.cfg", "q3")] if thorough
+            else [("PersistGen_q.cfg", "q"), ("PersistGen_q2.cfg", "q2"), ("PersistGen_q3.cfg", "q3")])
     for cfg, tag in gens:
         d = os.path.join(emit, tag)
         os.makedirs(d)
@@ -226,7 +244,7 @@ def run(ctx):
             ptlc(ctx, "persist/PersistGen:" + cfg, "PersistGen", cfg, workers=1, env={"VERIF_EMIT_DIR": d},
                  timeout=5000, heap="12g" if thorough else None), cfg)))
     # 5a. the recorded run of the real code (Go) also runs meanwhile; its validation follows
-    jobs.append(("record", lambda: validate_trace(ctx, record(ctx, runs), runs, thorough)))
+    jobs.append(("record", lambda: record_and_validate(ctx, runs, thorough)))
 
     errors = []
     with ThreadPoolExecutor(max_workers=len(jobs)) as ex:
@@ -249,7 +267,7 @@ def run(ctx):
             raise broken("no behaviours emitted (%s)" % tag)
         total += n
         dirs.append(d)
-        limits.append(str({"t": 5000, "f2": 2000, "q": 250, "q2": 200}[tag]))
+        limits.append(str({"t": 5000, "f2": 2000, "q": 220, "q2": 160, "q3": 0 if thorough else 120}[tag]))
     ctx.go_test("./persist", run="TestReplay$", timeout=4000,
                 env={"VERIF_BEHAVIOURS": os.pathsep.join(dirs), "VERIF_WORKERS": workers,
                      "VERIF_MAX_BEHAVIOURS": os.pathsep.join(limits)})
